@@ -20,8 +20,11 @@ def pattern_args(rec):
     return args
 
 
-def judge(rec, got, label):
+def judge(rec, got, label, ignore=()):
     exp = rec["sel"]
+    if ignore:
+        got = [x for x in got if x not in ignore]
+        exp = [x for x in exp if x not in ignore]
     if got == exp:
         return None
     missing = [i for i in exp if i not in set(got)]
@@ -64,13 +67,18 @@ def run(chk, cfg, tier, variants):
             o = r["o"]
             tname = "nul" if o["nul"] else "crlf" if o["crlf"] else "lf"
             pa = pattern_args(r)
-            for v in variants:
+            vs = list(variants)
+            if o["crlf"]:
+                vs += ["lfmmap", "lfpass"]      # --crlf on a file whose lines end in a bare LF (fast and slow line path)
+            for v in vs:
                 if tier == "quick" and v in ("json", "reader") and i % 4 and not o["nul"]:
                     continue
-                f = files[tname + ("_noterm" if v == "noterm" else "")]
+                f = files["lf"] if v in ("lfmmap", "lfpass") else files[tname + ("_noterm" if v == "noterm" else "")]
                 base = ["--no-config", "--color", "never", "-j1"]
-                if v in ("mmap", "noterm"):
+                if v in ("mmap", "noterm", "lfmmap"):
                     args = base + ["-n", "--no-heading", "--mmap"] + pa + [f]
+                elif v == "lfpass":
+                    args = base + ["-n", "--no-heading", "--passthru"] + pa + [f]
                 elif v == "reader":
                     args = base + ["-n", "--no-heading", "--no-mmap"] + pa + [f]
                 elif v == "passthru":
@@ -94,7 +102,10 @@ def run(chk, cfg, tier, variants):
                     got = [m["data"]["line_number"] for m in rgrun.json_matches(so) if m.get("type") == "match"]
                 else:
                     got = parse_std(so)
-                why = judge(r, got, v)
+                # on the LF file a content that ends in CR is, together with its LF, a CRLF-terminated line of another
+                # content: not judged
+                ign = set(k for k, l in enumerate(lines, 1) if l and l[-1] == 13) if v in ("lfmmap", "lfpass") else ()
+                why = judge(r, got, v, ign)
             if why:
                 o = r["o"]
                 sig = {"variant": v, "opts": sorted(k for k, val in o.items() if val), "fixed": r["fixed"],
